@@ -74,7 +74,16 @@ type OpRec struct {
 	Timeout   bool     `json:"timeout,omitempty"`  // the (proxied) call timed out: it may still take effect later
 }
 
+// Span is the part of a node's life the harness is sure about (lab clock, microseconds):
+// Joined = its Join/Create had returned; LeaveStart = its Leave was about to be called.
+type Span struct {
+	Joined     int64
+	LeaveStart int64 // 0 = never asked to leave
+	Left       int64 // 0 = did not leave
+}
+
 type ChurnResult struct {
+	Timeline       map[uint64]*Span
 	Ops            []OpRec
 	Live           []uint64
 	Converge       Convergence
@@ -191,7 +200,19 @@ func (c *churnRun) exec(r *rand.Rand, o OpRec) OpRec {
 
 // RunChurnKV executes the scenario. The caller applies the oracles.
 func RunChurnKV(cfg ChurnCfg, scratch string) *ChurnResult {
-	res := &ChurnResult{Stores: map[uint64][]string{}, Listed: map[uint64][]string{}}
+	res := &ChurnResult{Stores: map[uint64][]string{}, Listed: map[uint64][]string{}, Timeline: map[uint64]*Span{}}
+	var tlMu sync.Mutex
+	mark := func(id uint64, f func(sp *Span)) {
+		tlMu.Lock()
+		sp := res.Timeline[id]
+		if sp == nil {
+			sp = &Span{}
+			res.Timeline[id] = sp
+		}
+		f(sp)
+		tlMu.Unlock()
+	}
+	nowUs := func() int64 { return mono() / 1000 }
 	mode := Direct
 	if cfg.NetV {
 		mode = NetV
@@ -244,6 +265,7 @@ func RunChurnKV(cfg ChurnCfg, scratch string) *ChurnResult {
 	}
 	defer lab.StopAll()
 	c.joined = append(c.joined, first)
+	mark(first.ID, func(sp *Span) { sp.Joined = 1 })
 	for i := 1; i < cfg.Initial; i++ {
 		m, err := lab.Spawn(newID(rng), be)
 		if err != nil {
@@ -263,6 +285,7 @@ func RunChurnKV(cfg ChurnCfg, scratch string) *ChurnResult {
 			return res
 		}
 		c.joined = append(c.joined, m)
+		mark(m.ID, func(sp *Span) { sp.Joined = 1 })
 	}
 	if cv := lab.WaitConverged(int64(6*cfg.Initial+20), time.Minute, false); !cv.Converged {
 		res.Setup = "initial ring did not stabilise: " + cv.Diff
@@ -395,8 +418,14 @@ func RunChurnKV(cfg ChurnCfg, scratch string) *ChurnResult {
 					c.leaving[m.ID] = true
 					c.hmu.Unlock()
 					c.logf("g%d leave %d ...", g, m.ID)
+					mark(m.ID, func(sp *Span) { sp.LeaveStart = nowUs() })
 					m.Leave()
 					st := m.State()
+					if st == chord.Left {
+						mark(m.ID, func(sp *Span) { sp.Left = nowUs() })
+					} else {
+						mark(m.ID, func(sp *Span) { sp.LeaveStart = 0 }) // gave up: still a member (its locks were released)
+					}
 					c.logf("g%d leave %d -> %s", g, m.ID, st)
 					c.hmu.Lock()
 					delete(c.leaving, m.ID)
@@ -424,6 +453,9 @@ func RunChurnKV(cfg ChurnCfg, scratch string) *ChurnResult {
 					}
 					c.logf("g%d join %d via %d ...", g, m.ID, via.ID)
 					err = m.Join(via)
+					if err == nil {
+						mark(m.ID, func(sp *Span) { sp.Joined = nowUs() })
+					}
 					c.logf("g%d join %d via %d -> %v", g, m.ID, via.ID, err)
 					cmu.Lock()
 					if err == nil {
@@ -460,11 +492,19 @@ func RunChurnKV(cfg ChurnCfg, scratch string) *ChurnResult {
 		r2 := rand.New(rand.NewSource(cfg.Seed + 4242))
 		for e := 0; e < 6; e++ {
 			if e%3 == 2 && len(lab.Live()) > 2 {
-				c.entry(r2).Leave()
+				lm := c.entry(r2)
+				mark(lm.ID, func(sp *Span) { sp.LeaveStart = nowUs() })
+				lm.Leave()
+				if lm.State() == chord.Left {
+					mark(lm.ID, func(sp *Span) { sp.Left = nowUs() })
+				} else {
+					mark(lm.ID, func(sp *Span) { sp.LeaveStart = 0 })
+				}
 			} else {
 				m, err := lab.Spawn(newID(r2), be)
 				if err == nil {
 					if m.Join(c.entry(r2)) == nil {
+						mark(m.ID, func(sp *Span) { sp.Joined = nowUs() })
 						c.hmu.Lock()
 						c.joined = append(c.joined, m)
 						c.hmu.Unlock()
